@@ -297,7 +297,7 @@ func bufferWriteList(t *tb, r *Result, buf ssa.Value, depth int) (string, []bwIt
 			return
 		case *ssa.Call:
 			if f := x.Common().StaticCallee(); f != nil {
-				origin += "<-" + f.Name() + "(" + numTermArgs(t, x.Common().Args) + ")"
+				origin += "<-" + roleName(f) + "(" + numTermArgs(t, x.Common().Args) + ")"
 			}
 		case *ssa.Alloc:
 			origin += "<-new"
